@@ -26,6 +26,7 @@ LEVEL = "exploration"
 TECHNIQUE = ("deterministic simulation: real-encoder DNS messages + seeded network faults (corruption, truncation, splicing, "
              "pointer cycles, length inflation, segmentation) delivered to the real decoders; exception-type and watchdog oracle")
 QUICK_RUNS = 50000
+TWIN_P = 0.08   # this share of the runs drives two independent instances of the scenario one after the other (detsim.runner._run_scenario)
 BATCH = 300
 RUN_WALL_LIMIT_S = 4
 HANG_IS_VIOLATION = True
